@@ -176,7 +176,7 @@ Render ==
   \E x \in Live, opt \in {0, 1}, rs \in {0, 1}, re \in {0, 1} :
     LET v == heap[x] fl == <<opt, rs, re>> IN
     Do(heap,
-       [Ev("render", x, [how |-> "to_str", spec |-> << >>, flags |-> fl, inplace |-> 0], << >>, 0)
+       [Ev("render", x, [how |-> "to_str", spec |-> << >>, flags |-> fl, drift |-> 0, inplace |-> 0], << >>, 0)
           EXCEPT !.o = [out |-> RefRenderAll(v, fl),
                         valid |-> IF \A i \in DOMAIN v.s : \A k \in DOMAIN v.s[i] : ValidG(TextTable[v.s[i][k][2]]) THEN 1 ELSE 0,
                         parsable |-> IF ValAllSingle(v) THEN 1 ELSE 0]],
